@@ -247,4 +247,13 @@ theorem C17_unquoted_roundtrip_default (c : EncCfg) (s : Str) (h : encodeString 
   (bare_reads_back c s (bare_of_encodeString c s h)).2
 
 end Enc
+
+/-- **the cascade the model follows is the one in the source**: `Gen.decodeCascade` is read from
+    `PVLDecoder.decode_simple_value` with `ast` on every run; `decodeSimple` tries the keyword tests and then
+    exactly these decoders in this order, falling through on `ValueError` only, and ends with
+    `decode_unquoted_string`.  A re-ordering in the code changes the table and this stops checking. -/
+theorem C17_cascade_order :
+    Gen.decodeCascade = ["decode_quoted_string", "decode_non_decimal", "decode_decimal", "decode_datetime"] ∧
+    Gen.decodeCascadeCatches = ["ValueError"] := by decide
+
 end Pvl
